@@ -188,6 +188,36 @@ def midfile_faults(ctx, thorough):
     return evals, fails
 
 
+def stdin_faults(ctx):
+    """scan-stdin (and the API's scan_string, which shares the path) with a plug-in / parser failure, with and without
+    --continue-on-error: system-error exit, and the temporary capture file is removed whatever happens."""
+    fails, evals = [], 0
+    ctl = implib.probe_ctl()
+    with implib.workspace() as ws:
+        plug = implib.probe_plugin(os.path.join(ws, "plug3"), pid="zzz996", callbacks=("line",), fix=False, level=1)
+        d = os.path.join(ws, "si"); os.makedirs(d)
+        for kind in ("plugin", "parser"):
+            for cont in (True, False):
+                for scheme in ("default", "minimal"):
+                    argv = ["--return-code-scheme", scheme] + (["--add-plugin", plug] if kind == "plugin" else []) + (["--continue-on-error"] if cont else []) + ["scan-stdin"]
+                    text = "# T\n\nPLUGINBOOM here\n" if kind == "plugin" else "# T\n\nPARSERBOOM\n"
+                    implib.probe_reset()
+                    def go():
+                        if kind == "parser":
+                            with implib.parser_fault():
+                                return vlib.run_main(argv, stdin_text=text, cwd=d)
+                        return vlib.run_main(argv, stdin_text=text, cwd=d)
+                    (code, out, err), _ops = F.record_ops(go, d, set())
+                    leaked = [os.path.basename(x) for x in F.record_ops.temps_left]
+                    evals += 1
+                    case = {"fault": [kind, "stdin", None], "mode": "scan-stdin", "continue": cont, "scheme": scheme}
+                    if code != 1:
+                        fails.append((case, "fault-not-system-error", {"exit": code}))
+                    if leaked:
+                        fails.append((case, "temp-file-left", {"files": leaked}))
+    return evals, fails
+
+
 def strace_kill(ctx, thorough):
     """Kill the real process at each syscall of the write-back of a fixed file; compare what is left with the model."""
     if shutil.which("strace") is None:
@@ -241,7 +271,8 @@ def run(ctx):
     stats_c, samples = F.fix_correspondence(ctx, 25 if ctx.quick() else 300, F.FIX_CORPUS)
     evals, fails, samples2, dist = fault_runs(ctx, not ctx.quick())
     ev_mid, fails_mid = midfile_faults(ctx, not ctx.quick())
-    fails = fails + fails_mid
+    ev_si, fails_si = stdin_faults(ctx)
+    fails = fails + fails_mid + fails_si
     kstats, kfails = strace_kill(ctx, not ctx.quick())
     absorbed = {}
     for case, sym, det in fails + kfails:
@@ -261,6 +292,7 @@ def run(ctx):
                                               "rule": "(callback, k-th call | parser | undecodable) x victim position in a 3-file run x scan/fix x continue/stop; every run has a fault that fired",
                                               "exhaustive": not ctx.quick()},
                         "midfile_faults": {"evaluations": ev_mid, "rule": "6 victims with open constructs x fault at k-th token/line x {default, all rules}; follower = a document every rule reacts to", "exhaustive": not ctx.quick()},
+                        "stdin_faults": {"evaluations": ev_si, "rule": "{plugin, parser} failure x continue/stop x both schemes through scan-stdin", "exhaustive": True},
                         "kill_injection": kstats, "samples": samples2 + samples[:1]})
 
 
